@@ -7,7 +7,7 @@ open Gql
 
 /-- every op receives the words after the op name -/
 def allOps : List (String × (List String → String)) :=
-  Ops.lexOps ++ Ops.wireOps ++ Ops.formatOps ++ Ops.parseOps ++ Ops.varsOps ++ Ops.loadOps ++ Ops.validateOps ++ Ops.grammarOps ++ Ops.jsonOps ++ Ops.errorOps
+  Ops.lexOps ++ Ops.wireOps ++ Ops.formatOps ++ Ops.parseOps ++ Ops.varsOps ++ Ops.loadOps ++ Ops.validateOps ++ Ops.grammarOps ++ Ops.jsonOps ++ Ops.errorOps ++ Ops.valSpecOps
 
 def handle (line : String) : String :=
   match (line.trimAscii.toString.splitOn " ").filter (· ≠ "") with
